@@ -134,8 +134,21 @@ def compact_class_pairs(
                     (tuple(sorted(classes1[i])), tuple(sorted(classes2[j])))
                 ] = (None, None)
     grouped_pairs = cluster_pairs_by_class2_coverage_custom_cost(font, all_pairs, level)
+    # A non-zero ValueFormat2 makes a matched pair consume its second glyph, whatever
+    # the values: the rebuilt subtables must keep one (of any width) if the original had.
+    valueFormat2 = None
+    if subtable.ValueFormat2:
+        valueFormat2 = 0
+        for value1, value2 in all_pairs.values():
+            if value2 is not None:
+                valueFormat2 |= value2.getEffectiveFormat()
+        valueFormat2 = valueFormat2 or subtable.ValueFormat2
     for pairs in grouped_pairs:
-        subtables.append(buildPairPosClassesSubtable(pairs, font.getReverseGlyphMap()))
+        subtables.append(
+            buildPairPosClassesSubtable(
+                pairs, font.getReverseGlyphMap(), valueFormat2=valueFormat2
+            )
+        )
     return subtables
 
 
